@@ -2,6 +2,7 @@ package vmcrash
 
 import (
 	"fmt"
+	"os"
 	"strings"
 
 	"pgregory.net/rapid"
@@ -254,6 +255,11 @@ var c11Families = []c11Fam{
 func c11DrawGram(rt *rapid.T) c11Case {
 	// weights: the cheap, wide families get most of the draws
 	w := []int{10, 12, 4, 10, 8, 7, 4, 5, 5, 22, 13}
+	quick := os.Getenv("VERIF_TIER") != "thorough"
+	if quick {
+		// the memory- and time-hungry families are thinned out in the quick tier
+		w = []int{10, 12, 2, 10, 8, 7, 3, 3, 3, 25, 17}
+	}
 	tot := 0
 	for _, x := range w {
 		tot += x
@@ -276,7 +282,11 @@ func c11DrawGram(rt *rapid.T) c11Case {
 	}
 	switch fam.Name {
 	case "recur", "alloc", "growth":
-		c.Gas = rapid.SampledFrom([]int64{10_000_000, 30_000_000, 100_000_000, 300_000_000}).Draw(rt, "gas")
+		if quick {
+			c.Gas = rapid.SampledFrom([]int64{5_000_000, 10_000_000, 30_000_000}).Draw(rt, "gas")
+		} else {
+			c.Gas = rapid.SampledFrom([]int64{10_000_000, 30_000_000, 100_000_000, 300_000_000}).Draw(rt, "gas")
+		}
 	default:
 		c.Gas = rapid.SampledFrom([]int64{3_000_000, 10_000_000, 30_000_000, 100_000_000}).Draw(rt, "gas")
 	}
